@@ -2785,6 +2785,13 @@ func (uconn *UConn) ApplyPreset(p *ClientHelloSpec) error {
 	uconn.echCtx = ech
 	hello := uconn.HandshakeState.Hello
 
+	// makeClientHelloForApplyPreset fills these two from the Config defaults, but with a
+	// spec they are owned by ALPNExtension / SupportedCurvesExtension (writeToUConn copies
+	// them in ApplyConfig). Without that extension nothing is offered on the wire, so
+	// nothing may be left here for the server's choice to be validated against.
+	hello.AlpnProtocols = nil
+	hello.SupportedCurves = nil
+
 	switch len(hello.Random) {
 	case 0:
 		hello.Random = make([]byte, 32)
